@@ -90,8 +90,10 @@ class SharedCons:
 class RunMonitor:
     MAX_VIOL_PER_KEY = 3
 
-    def __init__(self, spec, oracles=None, fault=None, gp_fault=None, filter_script=None, construct_only=False, gp_update_fault=None, second_run=False, shared_cons=None, prelude=False):
+    def __init__(self, spec, oracles=None, fault=None, gp_fault=None, filter_script=None, construct_only=False, gp_update_fault=None, second_run=False, shared_cons=None, prelude=False, gp_fault_late=None):
         self.spec = spec
+        self.gp_fault_late = set(gp_fault_late or [])  # C16: fits that fail LATE (in their final posterior factorisation)
+        self.in_late_fit = None
         self.prelude = prelude  # process history: an unmonitored sibling run sharing the callables (see _run_prelude)
         self.in_prelude = False
         self.P_pre = None
@@ -1102,14 +1104,37 @@ class RunMonitor:
                 mon.c("C16.faults_delivered")
                 mon.c("C16.faults_delivered." + kind)
                 raise np.linalg.LinAlgError("injected GP fit failure #%d" % i)
+            if i in mon.gp_fault_late:
+                mon.in_late_fit = i
             try:
                 return o_fit(g, X, y, s2, hyp0=hyp0, options=options, **kw)
             except np.linalg.LinAlgError:
                 mon.flags.add("gp-fit-retried")
                 mon.c("natural_gp_fit_failures")
                 raise
+            finally:
+                mon.in_late_fit = None
 
         patch.set(GP, "fit", fit)
+
+        # a fit that fails LATE: the hyper-parameter search succeeds and the final posterior factorisation at the optimum
+        # fails - the GP object has by then been partly updated (its old posterior is gone)
+        core_name = "_GP__core_computation"
+        o_core = getattr(GP, core_name, None)
+        if o_core is not None and mon.gp_fault_late:
+            def core(g, hyp, compute_nlZ, compute_nlZ_grad, *a, **k):
+                if mon.in_late_fit is not None and not compute_nlZ:
+                    i_ = mon.in_late_fit
+                    mon.in_late_fit = None
+                    mon.c("C16.late_faults_delivered")
+                    mon.gp_fits[-1]["faulted"] = True
+                    mon.gp_fits[-1]["late"] = True
+                    raise np.linalg.LinAlgError("injected late GP fit failure #%d (posterior factorisation)" % i_)
+                return o_core(g, hyp, compute_nlZ, compute_nlZ_grad, *a, **k)
+
+            patch.set(GP, core_name, core)
+        elif mon.gp_fault_late:
+            mon.struct("gp-core-computation-seam-missing")
 
         o_update = GP.update
 
